@@ -158,8 +158,18 @@ impl C08 {
             }
             // compressed 16/32 bpp: all strings of length 2 (and 3 in thorough)
             "short23" => {
-                let n = if self.tier == Tier::Quick { 65536 } else { 65536 + (1 << 24) };
+                let n = 65536;
                 let s = i % n + 257;
+                i /= n;
+                let b = i % 2;
+                i /= 2;
+                let (w, h) = self.dims[i as usize];
+                Case { w, h, bpp: if b == 0 { 16 } else { 32 }, compress: true, data: short_string(s), block }
+            }
+            // thorough: all 2^24 three-byte strings for the 25 dimension pairs 0..4 x 0..4
+            "short3" => {
+                let n = 1u64 << 24;
+                let s = i % n + 257 + 65536;
                 i /= n;
                 let b = i % 2;
                 i /= 2;
@@ -260,7 +270,8 @@ impl Prop for C08 {
         let (od, pd) = if tier == Tier::Quick { (2u32, 3u32) } else { (3, 4) };
         self.blocks = vec![
             ("short1", nd * BPPS.len() as u64 * 2 * 257),
-            ("short23", nd * 2 * if tier == Tier::Quick { 65536 } else { 65536 + (1 << 24) }),
+            ("short23", nd * 2 * 65536),
+            ("short3", if tier == Tier::Quick { 0 } else { 25 * 2 * (1u64 << 24) }),
             ("orders", GRAMMAR_DIMS.len() as u64 * no.pow(od)),
             ("planar", PLANAR_DIMS.len() as u64 * 3 * np.pow(pd)),
             ("planarhdr", PLANAR_DIMS.len() as u64 * 256),
@@ -276,7 +287,7 @@ impl Prop for C08 {
         json!({"idx": idx, "block": c.block, "width": c.w, "height": c.h, "bpp": c.bpp, "compress": c.compress, "data_hex": hex(&c.data[..c.data.len().min(64)]), "data_len": c.data.len()})
     }
     fn rule(&self) -> String {
-        "cases = (width, height, bpp, compression flag, data). Blocks: [short1] 30 dims x 9 depths x 2 flags x all strings of length <=1; [short23] compressed 16/32 bpp x 30 dims x all 65536 two-byte strings (all 2^24 three-byte strings in thorough); [orders] grammar-aware sequences of <=2 (<=3 thorough) interleaved-RLE orders from an alphabet of every order kind x form x boundary run length incl. undefined codes and truncated headers; [planar] header x sequences of <=3 (<=4) planar control segments; [planarhdr] all 256 format header bytes; [rawlen] uncompressed data lengths {0, exact-1, exact, exact+1, 2*exact+3, exact/2}. Non-trivial: the decoder consumed at least one complete order/segment (data non-empty and supported depth).".into()
+        "cases = (width, height, bpp, compression flag, data). Blocks: [short1] 30 dims x 9 depths x 2 flags x all strings of length <=1; [short23] compressed 16/32 bpp x 30 dims x all 65536 two-byte strings (in thorough also all 2^24 three-byte strings for the 25 dimension pairs up to 4x4); [orders] grammar-aware sequences of <=2 (<=3 thorough) interleaved-RLE orders from an alphabet of every order kind x form x boundary run length incl. undefined codes and truncated headers; [planar] header x sequences of <=3 (<=4) planar control segments; [planarhdr] all 256 format header bytes; [rawlen] uncompressed data lengths {0, exact-1, exact, exact+1, 2*exact+3, exact/2}. Non-trivial: the decoder consumed at least one complete order/segment (data non-empty and supported depth).".into()
     }
     fn assumptions(&self) -> Vec<String> {
         vec!["allocation bound checked: peak <= 4*(w*h*4) + 8*len(data) + 64 KiB".into(), "dimensions above 256x256 are not enumerated".into()]
